@@ -107,6 +107,9 @@ pub trait LibG: Group + std::fmt::Debug {
     fn rescale(self, lam: &[u8]) -> Option<Self>;
     fn mul_left(k: Fr, p: Self) -> Self;
     fn z_is_one(&self) -> bool;
+    /// Jacobian coordinates as lists of canonical 32-byte field encodings, real part first
+    /// for Fq2 (read through real()/imaginary(), not through the Fq2 byte layout)
+    fn jac_coords(&self) -> (Vec<[u8; 32]>, Vec<[u8; 32]>, Vec<[u8; 32]>);
 }
 
 impl LibG for G1 {
@@ -157,6 +160,9 @@ impl LibG for G1 {
     }
     fn z_is_one(&self) -> bool {
         self.z() == Fq::one()
+    }
+    fn jac_coords(&self) -> (Vec<[u8; 32]>, Vec<[u8; 32]>, Vec<[u8; 32]>) {
+        (vec![self.x().to_slice()], vec![self.y().to_slice()], vec![self.z().to_slice()])
     }
 }
 
@@ -215,6 +221,10 @@ impl LibG for G2 {
     }
     fn z_is_one(&self) -> bool {
         self.z() == Fq2::one()
+    }
+    fn jac_coords(&self) -> (Vec<[u8; 32]>, Vec<[u8; 32]>, Vec<[u8; 32]>) {
+        let f = |v: Fq2| vec![v.real().to_slice(), v.imaginary().to_slice()];
+        (f(self.x()), f(self.y()), f(self.z()))
     }
 }
 
@@ -861,6 +871,14 @@ pub fn exec(spec: &GrpSpec, prop: &str) -> RunResult {
         dg.u64(step as u64);
         dg.bytes(&outcome);
         res.step_digests.push(dg.0);
+        // C03 speaks about the pairing entry points only. If a *group* operation disagrees
+        // with the model, the model has lost track of which group elements the registers
+        // hold, so nothing can be said about C03 any more: the run is abandoned (counted),
+        // not reported - that disagreement is C16's to report.
+        if viol.is_some() && prop == "C03" && !matches!(op, GOp::Pair { .. } | GOp::Prep { .. } | GOp::PrepClone { .. } | GOp::PrepPair { .. }) {
+            res.count("abandoned_group_semantics_mismatch");
+            break;
+        }
         if let Some((invn, detail)) = viol {
             res.violation = Some(Violation {
                 property: prop.to_string(),
